@@ -183,11 +183,19 @@ func (p *Prog) forAllShape(fn *ssa.Function) (over string, ok bool) {
 		}
 		falses++
 		found := ""
+		extraGuards := 0
 		for _, e := range DomEdges(b) {
 			if !loop[e.From] {
 				continue
 			}
 			iff := e.From.Instrs[len(e.From.Instrs)-1].(*ssa.If)
+			// an additional guard "the entry exists" in front of the zero test (`q, ok := m[k]; ok &&
+			// q == 0`) lets an absent entry pass as non-zero
+			if base, neg := condOf(iff.Cond); true {
+				if bs := deepStrip(p.Sym(base)); bs.Op == "extract" && bs.Name == "1" && len(bs.Args) == 1 && bs.Args[0].Op == "index" && (e.Succ == 0) != neg {
+					extraGuards++
+				}
+			}
 			// comma-ok form: `q, ok := mapParam[sliceParam[i]]`; !ok (no entry: nothing was given)
 			if base, neg := condOf(iff.Cond); true {
 				if bs := deepStrip(p.Sym(base)); bs.Op == "extract" && bs.Name == "1" && len(bs.Args) == 1 && bs.Args[0].Op == "index" && bs.Args[0].Args[0].Op == "param" {
@@ -224,6 +232,9 @@ func (p *Prog) forAllShape(fn *ssa.Function) (over string, ok bool) {
 			if l.Op == "extract" && l.Name == "2" && l.Args[0].Op == "next" {
 				found = "map"
 			}
+		}
+		if extraGuards > 0 {
+			return "", false
 		}
 		if found == "" {
 			return "", false
